@@ -1507,8 +1507,13 @@ bucket_popitem(Bucket* self, PyObject* args)
 
     key = Bucket_minKey(self, args); /* reuse existing empty tuple. */
     if (!key) {
-        PyErr_Clear();
-        PyErr_SetString(PyExc_KeyError, "popitem(): empty bucket.");
+        /* minKey() says ValueError for an empty container; any other
+         * failure (the node could not be loaded, ...) is not emptiness.
+         */
+        if (PyErr_ExceptionMatches(PyExc_ValueError)) {
+            PyErr_Clear();
+            PyErr_SetString(PyExc_KeyError, "popitem(): empty bucket.");
+        }
         return NULL;
     }
 
